@@ -50,14 +50,71 @@ JSON_WRITE_CONTRACT = """
 """
 
 
+EXISTS_CONTRACT = """
+        ensures r ==> !(fs.state(pbid(*p)) is Absent),
+                !r ==> fs.state(pbid(*p)) is Absent || io_read_fault(pbid(*p)),
+"""
+# fs::read_to_string: the whole content of a complete file; whatever is there of a partial one
+READ_CONTRACT = """
+        ensures r is Ok ==> (match fs.state(pbid(*p)) { FileState::Complete(c) => r->Ok_0@ == c, FileState::Partial => true, FileState::Absent => false }),
+                fs.state(pbid(*p)) is Complete && !io_read_fault(pbid(*p)) ==> r is Ok,
+"""
+FROM_STR_CONTRACT = """
+        ensures match parse_key(s@) { Some(k) => r is Ok && r->Ok_0 == k, None => r is Err },
+"""
+
+KK_USES = """use self::key::Key;
+use crate::common::error::{Error, KeyErrorType};
+use crate::common::result::Result;
+use crate::proxy_agent_shared::misc_helpers;
+use std::fs;
+use std::path::Path;
+use std::path::PathBuf;"""
+
+STORE_CONTRACT = """
+        requires old(fs).safe(),
+        ensures
+            final(fs).safe(),  // @C08.%(f)s.crash_invariant_holds_on_every_exit
+            r is Ok ==> stored_complete(*final(fs), pid(key_dir), *key),  // @C08.%(f)s.ok_means_complete_under_the_keys_final_name
+            r is Err ==> final(fs).state(key_path(pid(key_dir), key.guid@)) == old(fs).state(key_path(pid(key_dir), key.guid@)),  // @C08.%(f)s.failure_leaves_final_name_as_it_was
+            forall|q: PathId| q != key_path(pid(key_dir), key.guid@) && !is_tmp(q) ==> #[trigger] final(fs).state(q) == old(fs).state(q),  // @C08.%(f)s.other_final_names_untouched
+"""
+FETCH_CONTRACT = """
+        requires fs.safe(),
+        ensures
+            %(enc)sr is Ok ==> reads_as(*fs, key_path(pid(key_dir), key_guid@), r->Ok_0),  // @C08.%(f)s.reads_the_name_store_writes
+            %(enc)skey_readable(*fs, key_path(pid(key_dir), key_guid@)) ==> r is Ok,  // @C08.%(f)s.readable_key_is_found
+"""
+CHECK_CONTRACT = """
+        requires fs.safe(),
+        ensures
+            r is Ok ==> read_back_identical(*fs, pid(key_dir), *key),  // @C08.%(f)s.ok_means_read_back_identical
+"""
+
+
 def build(u):
     u.externs.append("serde_derive")
     mh = u.src("proxy_agent_shared/src/misc_helpers.rs")
     sherr = u.src("proxy_agent_shared/src/error.rs")
+    err = u.src("proxy_agent/src/common/error.rs")
+    kk = u.src("proxy_agent/src/key_keeper.rs")
+    key = u.src("proxy_agent/src/key_keeper/key.rs")
     for f in ("str_axioms.rs", "ext_types.rs", "std_string.rs"):
         u.raw(open(os.path.join(COMMON, f)).read())
     u.raw_file("fs_spec.rs")
     u.raw_file("deps.rs")
+    u.raw_file("spec.rs")
+    with u.mod("common"):
+        with u.mod("error"):
+            # the error enums are kept verbatim outside verus!{} (thiserror derives intact) and declared TRANSPARENT external types:
+            # the functions under contract construct Error::Key(KeyErrorType::..(..)) / Error::Io(..) values
+            u.take_ext(err, ["Error", "HyperErrorType", "WireServerErrorType", "KeyErrorType", "AclErrorType", "BpfErrorType"], "vx_ext_error", uses="use http::{uri::InvalidUri, StatusCode};", opaque=False, transparent=False)
+            for n in ("Error", "KeyErrorType"):
+                u.emit("#[verifier::external_type_specification]\npub struct VxEx_vx_ext_error_%s(crate::vx_ext_error::%s);" % (n, n), "glue", "E1")
+            for n in ("HyperErrorType", "WireServerErrorType", "AclErrorType", "BpfErrorType"):
+                u.emit("#[verifier::external_type_specification]\n#[verifier::external_body]\npub struct VxEx_vx_ext_error_%s(crate::vx_ext_error::%s);" % (n, n), "glue", "E1")
+        with u.mod("result", uses="use super::error::Error;"):
+            u.raw("pub type Result<T> = core::result::Result<T, Error>;")
     with u.mod("proxy_agent_shared"):
         with u.mod("error"):
             u.take_ext(sherr, ["Error", "ParseVersionErrorType", "CommandErrorType"], "vx_ext_shared_error")
@@ -65,7 +122,7 @@ def build(u):
             u.raw("pub type Result<T> = core::result::Result<T, Error>;")
         with u.mod("misc_helpers", uses="use super::result::Result;\nuse serde::de::DeserializeOwned;\nuse serde::Serialize;\nuse std::fs::{self, File};\nuse std::path::{Path, PathBuf};"):
             u.take_fn(mh, "json_write_to_file", ghost=FS,
-                      pre_body="broadcast use axiom_set_ext, group_os_text;\nproof { lemma_ext_lits(); }",
+                      pre_body="broadcast use group_fs, group_os_text;\nproof { lemma_ext_lits(); }",
                       e9=[("File::create(&temp_file_path)", None, "path: &PathBuf, " + FS, "&temp_file_path, Tracked(fs)", "std::io::Result<File>",
                            CREATE_CONTRACT, dict(name="vx_e9_file_create", body="File::create(path)", local=True)),
                           ("serde_json::to_writer_pretty(file, obj)", None, "file: File, obj: &T, " + FS, "file, obj, Tracked(fs)", "serde_json::Result<()>",
@@ -73,3 +130,28 @@ def build(u):
                           ("std::fs::rename(temp_file_path, file_path)", None, "from: PathBuf, to: &Path, " + FS, "temp_file_path, file_path, Tracked(fs)", "std::io::Result<()>",
                            RENAME_CONTRACT, dict(name="vx_e9_rename", body="std::fs::rename(from, to)", local=True))],
                       contract=JSON_WRITE_CONTRACT)
+
+    PRE = "broadcast use group_fs, group_os_text, group_fmt, axiom_to_string_string, axiom_json_of_ref;\nproof { lemma_ext_lits(); }"
+    with u.mod("key_keeper", uses=KK_USES):
+        with u.mod("key"):
+            # serde derives inside verus!{} crash this Verus build: the struct is kept verbatim outside (derives intact, fields
+            # made pub by E2) and declared a TRANSPARENT external type
+            u.take_ext(key, ["Key"], "vx_ext_key", uses="use serde_derive::{Deserialize, Serialize};", opaque=False, transparent=True)
+        u.placeholder_ext(kk, ["KeyKeeper"], "vx_ph_kk")
+        with u.impl_(kk, "KeyKeeper"):
+            u.take_fn(kk, "KeyKeeper::store_local_key", ghost=FS, pre_body=PRE,
+                      ghost_calls=[("misc_helpers::json_write_to_file", None, "Tracked(fs)")],
+                      contract=STORE_CONTRACT % dict(f="store_local_key"))
+            u.take_fn(kk, "KeyKeeper::store_key", ghost=FS, ghost_calls=[("Self::store_local_key", "all", "Tracked(fs)")],
+                      contract=STORE_CONTRACT % dict(f="store_key"))
+            u.take_fn(kk, "KeyKeeper::fetch_local_key", ghost=FS_RO, pre_body=PRE,
+                      e9=[("key_file.exists()", None, "p: &PathBuf, " + FS_RO, "&key_file, Tracked(fs)", "bool", EXISTS_CONTRACT, dict(name="vx_e9_exists", body="p.exists()", local=True)),
+                          ("fs::read_to_string(&key_file)", None, "p: &PathBuf, " + FS_RO, "&key_file, Tracked(fs)", "std::io::Result<String>", READ_CONTRACT, dict(name="vx_e9_read_to_string", body="fs::read_to_string(p)", local=True)),
+                          ("serde_json::from_str::<Key>(&key_data)", None, "s: &String", "&key_data", "serde_json::Result<Key>", FROM_STR_CONTRACT, dict(name="vx_e9_key_from_str", body="serde_json::from_str::<Key>(s)", local=True))],
+                      contract=FETCH_CONTRACT % dict(f="fetch_local_key", enc="!encrypted && ") + "            encrypted ==> r is Err,\n")
+            u.take_fn(kk, "KeyKeeper::fetch_key", ghost=FS_RO, ghost_calls=[("Self::fetch_local_key", "all", "Tracked(fs)")],
+                      contract=FETCH_CONTRACT % dict(f="fetch_key", enc=""))
+            u.take_fn(kk, "KeyKeeper::check_local_key", ghost=FS_RO, pre_body=PRE, ghost_calls=[("Self::fetch_local_key", None, "Tracked(fs)")],
+                      contract=CHECK_CONTRACT % dict(f="check_local_key"))
+            u.take_fn(kk, "KeyKeeper::check_key", ghost=FS_RO, ghost_calls=[("Self::check_local_key", "all", "Tracked(fs)")],
+                      contract=CHECK_CONTRACT % dict(f="check_key"))
